@@ -32,14 +32,14 @@ EXPLANATION = (
 
 
 def check(run, repo, tier):
-  w = World(repo)
-  r1_key_normalisation(run, w)
-  r2_index_maintenance(run, w)
-  r3_lookup_one(run, w)
-  r4_no_captured_columns(run, w)
+  V = H.guarded_views
+  V(run, repo, r1_key_normalisation)
+  V(run, repo, r2_index_maintenance)
+  V(run, repo, r3_lookup_one)
+  V(run, repo, r4_no_captured_columns)
   from ._extra import c13_reset_all_keys, c14_sortkey_total_order
-  run.guard(c13_reset_all_keys, run, w, "C13-R2")
-  c14_sortkey_total_order(run, w, "C13-R5")
+  V(run, repo, c13_reset_all_keys, "C13-R2")
+  V(run, repo, c14_sortkey_total_order, "C13-R5")
 
 
 def r4_no_captured_columns(run, w):
